@@ -226,11 +226,9 @@ class CacheFactory(object):
         Expires a single object.  Typically called after a delete.
         Doesn't even keep a weakref.  (@@: bad name?)
         """
-        if not self.doCache:
-            return
         self.lock.acquire()
         try:
-            if id in self.cache:
+            if self.doCache and id in self.cache:
                 del self.cache[id]
             if id in self.expiredCache:
                 del self.expiredCache[id]
